@@ -1,2 +1,3 @@
 //! Shared helpers for the per-property check binaries.
 pub mod guard;
+pub mod sqlh;
